@@ -111,5 +111,5 @@ Definition prop_ok (c : case) : bool :=
   | CSeq xs out => list_eqb Z.eqb (payloads out) xs
   end.
 
-Definition corr_failing (cs : list case) := failing corr_ok cs.
-Definition prop_violating (cs : list case) := failing prop_ok cs.
+Definition known_class (c : case) : N := 0%N.
+Definition report (cs : list case) := classify corr_ok prop_ok known_class cs.
